@@ -256,10 +256,10 @@ func (w *world) startReaders() (stop func()) {
 				w.gate.RUnlock()
 				probes++
 				n := b.Block.Number
-				cmp := func(name string, pv string, pok bool, tv string, tok bool, mustFrom uint64) {
+				cmp := func(name string, pv string, pok bool, tv string, tok bool) {
 					answers++
 					if !pok {
-						if tok && n >= mustFrom && n >= B {
+						if tok && n >= B {
 							report("concurrent-reader:retained-read-failed:"+name, fmt.Sprintf("%s of block %d failed (%s) although no floor above %d was ever allowed", name, n, pv, B), nil)
 						}
 						return
@@ -268,13 +268,13 @@ func (w *world) startReaders() (stop func()) {
 						report("concurrent-reader:wrong-answer:"+name, fmt.Sprintf("%s of block %d: pruned=%q twin=%q", name, n, pv, tv), nil)
 					}
 				}
-				cmp("block", p.block, p.okBlock, t.block, t.okBlock, 0)
-				cmp("header", p.header, p.okHeader, t.header, t.okHeader, 0)
-				cmp("state_update", p.su, p.okSU, t.su, t.okSU, 0)
-				cmp("block_by_hash", p.byHash, p.okByHash, t.byHash, t.okByHash, 0)
+				cmp("block", p.block, p.okBlock, t.block, t.okBlock)
+				cmp("header", p.header, p.okHeader, t.header, t.okHeader)
+				cmp("state_update", p.su, p.okSU, t.su, t.okSU)
+				cmp("block_by_hash", p.byHash, p.okByHash, t.byHash, t.okByHash)
 				if len(b.Block.Transactions) > 0 {
-					cmp("receipt", p.receipt, p.okReceipt, t.receipt, t.okReceipt, 0)
-					cmp("tx_by_hash", p.txByHash, p.okTx, t.txByHash, t.okTx, 0)
+					cmp("receipt", p.receipt, p.okReceipt, t.receipt, t.okReceipt)
+					cmp("tx_by_hash", p.txByHash, p.okTx, t.txByHash, t.okTx)
 				}
 				st := func(name string, pm, tm map[string]string, historical bool) {
 					answers++
